@@ -289,7 +289,7 @@ def c14(c):
     c.assumptions += ["the search for boundary chunks (driver, sha3 crate) only selects inputs; the verdict is TLC's recomputation"]
 
 
-C04_FACTS = {"ntru_eq", "f_invertible", "pk_relation", "gs_first", "leaf_count", "leaves_in_range", "tree_shape", "panic"}
+C04_FACTS = {"ntru_eq", "f_invertible", "pk_relation", "gs_first", "leaf_count", "leaves_in_range", "tree_shape", "candidate_machine", "last_candidate_accepted", "panic"}
 C05_FACTS = {"sk_bytes", "sk_len", "pk_len", "pk_decodes", "sk_decodes_to_original", "sk_roundtrip", "pk_roundtrip", "representable", "panic"}
 
 
